@@ -35,7 +35,7 @@ def c13 (ln : Nat) (t : List String) : Option (List String) :=
   match t with
   | "dm.apply" :: op :: o :: f :: nobj :: r =>
     let F := parseObjs (nOfTok nobj) (r.map iOfTok)
-    let (F', ok) := if op == "enable" then enable bigFuel F (nOfTok o) (nOfTok f) false true
+    let (F', ok) := if op == "enable" then enable bigFuel F (nOfTok o) (nOfTok f) false true false
                     else disable bigFuel F (nOfTok o) (nOfTok f)
     some ([out ln "rc" (iTok (if ok then 0 else 1)), out ln "nobj" (iTok F'.length)] ++ F'.map (fun ob => out ln "obj" (showObj ob))
           ++ [out ln "consistent" (bTok (consistent F'))])
